@@ -56,3 +56,24 @@ check("C20", "enum",
       "GCS bytes/round trips/no false negatives/batch==element-wise, BuildBasicFilter element set and BIP157 header chain (incl. the cfindex on real chains), bloom no-false-negatives and MatchTxAndUpdate semantics, merkle blocks verified by the BIP37 extraction algorithm; references bound to shipped vectors.",
       "siphash/murmur written independently; large-N filters use fixed deterministic element lists.",
       "DESIGN.md §4 C20")
+
+check("C04", "crashdb",
+      "crash-point enumeration: for every durable commit k of each workload (and, nested, every commit j of the recovery) the process dies, the store is reopened by the real blockchain.New and compared with the naive fold",
+      "Workloads (extension with spends and re-created txids, reorganisation there and back, invalid block, pruning with tiny block files) x three utxo-cache sizes; after each reopen: no error, tip previously active, full UTXO universe == fold of the tip's chain, acknowledged blocks still known, re-feeding converges to the uninterrupted run.",
+      "Crashes are placed between db.Update commits (ffldb's own prefix durability is C05's subject); depth-2 nesting; known finding: stored-but-unconnected block after a crash between store and connect commits.",
+      "DESIGN.md §4 C04")
+check("C07", "enum",
+      "exhaustive enumeration of tx shapes x input index x every one-byte hash type x script codes x annex/codesep variants against independent legacy/BIP143/BIP341 digests; signer round trips and per-field commitment mutations through the real engine",
+      "Digests byte for byte (fresh midstate, shared HashCache), SigCache cold/warm agreement, every helper of sign.go for 28 spend kinds verifies under StandardVerifyFlags, and a mutated field makes the signature fail iff the reference digest changes. refsighash is bound to sighash.json, tx_valid.json and the taproot-ref vectors.",
+      "Signature math itself is C11's subject; sha256 trusted.",
+      "DESIGN.md §4 C07")
+check("C08", "enum",
+      "exhaustive enumeration of per-field boundary domains for all 31 message types x 28 protocol versions x encodings against table-driven reference layouts, and of hostile byte strings (all strings <=2 bytes, every truncation / single-byte substitution / non-minimal or oversized count of each valid encoding) with allocation measurement in single-goroutine worker processes",
+      "Encode == reference bytes, decode(encode)=id, sizes, hashes, btcutil wrappers, framing; hostile input: value or error, never a panic, allocation <= 5 x MaxMessagePayload, accepted input re-encodes to the consumed bytes (documented per-message exemptions).",
+      "Known finding: wtxidrelay frame is not readable. Pairs of substitutions only in thorough and only inside count/length/flag fields.",
+      "DESIGN.md §4 C08")
+check("C09", "enum",
+      "exhaustive enumeration: compact grid (quick) / all 2^32 compact values (thorough, time-boxed), targets 2^k±1, header histories around every retarget boundary for mainnet/testnet3/testnet4/no-retarget-like parameter sets, all timestamp orders for MTP, all halving boundaries, against a math/big reference written from Core",
+      "CompactToBig/BigToCompact/CalcWork/PoW range verdict, calcNextRequiredDifficulty and header-context acceptance through ProcessBlockHeader, median time past, subsidy schedule and 21M cap, strictly increasing cumulative work; refpow bound to Core's arith_uint256/pow test literals and the shipped genesis blocks.",
+      "Where Core's 256-bit arithmetic would wrap (powLimit > 2^232) equality is not demanded; negative inexact big.Ints are outside the property's domain.",
+      "DESIGN.md §4 C09")
